@@ -35,6 +35,19 @@ const LINKS_SIZE: usize = std::mem::size_of::<Links>();
 /// Maximum node size (with full tower)
 const MAX_NODE_SIZE: usize = std::mem::size_of::<Node>() + (MAX_HEIGHT - 1) * LINKS_SIZE;
 
+/// Alignment of node allocations (see `new_raw_node`).
+const NODE_ALIGNMENT: usize = 8;
+
+/// Upper bound on the arena space one entry can take, whatever tower height
+/// it draws: the arena admits an allocation only if a full tower would still
+/// fit behind it.
+pub(crate) const fn max_entry_arena_size(key_len: usize, value_len: usize) -> usize {
+	MAX_NODE_SIZE + key_len + value_len + NODE_ALIGNMENT - 1
+}
+
+/// Arena space taken by an empty skiplist (reserved null offset, head, tail).
+pub(crate) const EMPTY_ARENA_SIZE: usize = 1 + 2 * max_entry_arena_size(0, 0);
+
 /// Precomputed probabilities for random height generation
 fn probabilities() -> &'static [u32; MAX_HEIGHT] {
 	static PROBABILITIES: std::sync::OnceLock<[u32; MAX_HEIGHT]> = std::sync::OnceLock::new();
